@@ -1390,6 +1390,11 @@ impl<D: DependencyProvider, RT: AsyncRuntime> Solver<D, RT> {
                 .as_solvable(&self.state.variable_map)
                 .map(|s| self.provider().solvable_name(s));
             if let Some(name_id) = name_id {
+                // The package of a solvable that was requested directly (a soft
+                // requirement) may never have been fetched.
+                if self.state.name_activity.len() <= name_id.to_usize() {
+                    self.state.name_activity.resize(name_id.to_usize() + 1, 0.0);
+                }
                 self.state.name_activity[name_id.to_usize()] += self.activity_add;
             }
         }
